@@ -151,6 +151,9 @@ def mc_laws(ctx, res):
             res.mc_failures.append("MCLaws: " + m["out"][m["out"].find("Error:"):][:3000])
         else:
             raise tlc.TLCError(m["out"][-2000:])
+    # the same row theorems over ALL integers (TLAPS, spec/proofs/RowProofs.tla): EnergyRow, LossBounds, PassiveNoGain per
+    # kind follow from the documented transfer and loss laws.  A property of the specification alone - recorded.
+    res.extra["tlaps_row_theorems"] = tlc.run_tlaps("RowProofs.tla", ctx.work)
 
 
 EDIT_COUNT = {}        # kind of edit -> how often it was applied in this run (stratified choice, reported in the evidence)
